@@ -97,6 +97,25 @@ def run_graph(c):
     return r, lst
 
 
+def skip_regex_stream(res):
+    """--skip takes a regular expression: a file is left out iff the
+    expression matches its whole name (alternatives, groups, wildcards)"""
+    inc = ['c.tex', 'b.tex', 'sub/b.tex', 'c.tex.old.tex', 'fig1.tex', 'myfig.tex', 'd.tex']
+    files = {n: 'Text in %s.\n' % n for n in inc}
+    files['main.tex'] = 'Main.\n' + ''.join('\\input{%s}\n' % n for n in inc)
+    for rx in ('c.tex|b.tex', 'b\\.tex|c\\.tex', 'fig.*', '(c|d)\\.tex', 'c\\.tex', 'd.tex|fig1.tex|nothing',
+               '.*b\\.tex', 'sub/.*|my.*', '[cd]\\.tex'):
+        r = shellrun.run_shell(files, ['--include', '--skip', rx, 'main.tex'])
+        m = re.search(r'=== checking for file inclusions \.\.\. (.*)\n', r.err)
+        got = m.group(1).split(', ') if m and m.group(1) else None
+        want = ['main.tex'] + [n for n in inc if not re.fullmatch(rx, n)]
+        res.count('skip-regex', ('skip', rx), nontrivial=True)
+        if r.traceback or got != want:
+            res.failures.append(('c18-skip:%s' % rx, {'kind': 'skip', 'regex': rx, 'files': files},
+                                 '--skip %r: files checked %r, the names the expression does '
+                                 'not match are %r' % (rx, got, want)))
+
+
 def graph_stream(cases, res, stream):
     results = shellrun.pmap(run_graph, cases)
     lines = []
@@ -297,6 +316,7 @@ def run(tier, seed, build, res):
                                      missing=rng.random() < 0.1))
     res.extra['exhaustive_3_files'] = tier == 'thorough'
     graph_stream(cases, res, 'graphs')
+    skip_regex_stream(res)
     extraction_stream(rng, res, 300 if tier == 'quick' else 5000)
     parser_reuse_stream(rng, res, 40 if tier == 'quick' else 600)
 
